@@ -2,7 +2,7 @@ SPEC = dict(
     props_file="Props/C16.v",
     level="proof",
     observers=[dict(cmd="obs_acc", imports=["Model.AccBase", "Model.Accessors"], case_type="Accessors.case", check="Accessors.check_case",
-                    n={"quick": 1500, "thorough": 80000}, shard=100, args=["-prop", "C16"])],
+                    n={"quick": 1000, "thorough": 80000}, shard=100, args=["-prop", "C16"])],
     rule="structured data generated per helper (integers incl. int64/uint64 extremes, floats incl. +-Inf, NaN, -0, subnormals, strings "
          "incl. empty / binary / number-like, field lists with repeated fields, nil stream entries, 0-6 elements) encoded by the harness in "
          "the RESP2 and the RESP3 reply shape (scalars, slices, string/int maps as array and map, ZSCORE(S) flat and nested, XRANGE, "
